@@ -269,6 +269,9 @@ pub fn run(prop: &str, thorough: bool, seed: u64, rep: &mut Report) {
         // four that JSON does: every entry point must agree with `parse_str` on them, in any position
         let blanks = ["1", "[", "]", "true", " ", "\t", "\n", "\r", "\u{b}", "\u{c}", "\u{a0}", "\u{85}", "\u{2028}", "\u{feff}", "\u{3000}"];
         for_each(&blanks, 3, |s| check_entry_points(s, rep));
+        // surrogate escapes: the option-less entry points are the STRICT parser (none may silently
+        // run under a lenient option record)
+        for_each(&sur, 3, |s| { let t = format!("\"{}", s); check_entry_points(&t, rep); });
     }
     if prop == "C01" || prop == "C05" || prop == "C07" {
         rep.checks.push(format!("{}: byte-slice entry point on ill-formed and multi-byte UTF-8", prop));
